@@ -52,7 +52,8 @@ pub fn gen_model(rng: &mut Rng, enc: Enc, max_notes: usize) -> Vec<NoteModel> {
             }
             2 => {
                 // GNU name, other type
-                let mut t = rng.next_u32();
+                // the registered GNU note types are small integers (hwcap 2, gold version 4, property 5, ...)
+                let mut t = if rng.chance(2, 3) { rng.below(18) as u32 } else { rng.next_u32() };
                 if t == 1 || t == 3 {
                     t = 5;
                 }
